@@ -354,7 +354,7 @@ def run(ctx):
         else:
             r.bad("clear", "matches_candidate_into does not clear the output vector", fn=f)
 
-    with ctx.rule("C12.REGEX", "glob→regex: an arm per token; [^/] forms exactly under literal_separator", floor=10, kind="ARMS") as r:
+    with ctx.rule("C12.REGEX", "glob→regex: an arm per token; [^/] forms exactly under literal_separator", floor=11, kind="ARMS") as r:
         f = facts.fn(G + "::glob::Tokens::tokens_to_regex")
         eb = ExprBuilder(f)
         TOKEN = G + "::glob::Token"
@@ -391,6 +391,24 @@ def run(ctx):
                 else:
                     r.bad("sep|" + v, "Token::%s translates to %s under literal_separator and %s otherwise (specified %s / %s)"
                           % (v, res[True], res[False], sep, nosep), fn=f, construct=v)
+            # a negated class is "anything but …": under literal_separator that must not include '/' (git's wildmatch;
+            # the same reason `*`/`?` become [^/] forms). An explicit `[/]` stays a deliberate difference (tests matchslash4).
+            if "Class" in arms:
+                sw = [s_ for s_ in cond_switches(f, lambda e: W.field_of(e, GOPT, "literal_separator"), eb)
+                      if s_[0] in C.reach(f, [arms["Class"]], removed_blocks={bb})]
+                ok_ = False
+                for bb2, te, fe, e in sw:
+                    reg = C.reach(f, [te[1]], removed_blocks={bb})
+                    for c in f.calls():
+                        if c.bb in reg and c.path.split("::")[-1] in ("push", "push_str") and "String" in c.path:
+                            a_ = eb.operand(c.args[1])
+                            if any(x.k == "const" and (x[1] == 47 or (x[2] and "/" in str(x[2]) and "^/" not in str(x[2]))) for x in walk(a_)):
+                                ok_ = True
+                if ok_:
+                    r.ok("sep|Class", "a negated class excludes '/' under literal_separator", fn=f)
+                else:
+                    r.bad("sep|Class", "Token::Class is translated without consulting literal_separator: a negated class such as "
+                          "[!b] matches '/', so the gitignore line /a[!b]c ignores a/c (git does not)", fn=f, construct="Class")
 
 
 def features(f):
